@@ -29,6 +29,7 @@ def _init_worker():
     from harness import lib_valueprop as L
 
     L.single_threaded_ort()
+    L.limit_memory()
 
 
 def _prog_task(task):
@@ -126,6 +127,11 @@ def _run(ck: core.Check, pool):
     ck.lean(["SpoxModel.Props.C15"], audit="SpoxModel.Audit.C15")
     if ck.thorough:
         ck.leanchecker(["SpoxModel.Props.C15"])
+    try:
+        ck.driver()  # build the native driver before capping this process's memory (lake needs room)
+    except Exception:  # noqa: BLE001 - reported again where the driver is used
+        pass
+    L.limit_memory(8.0)
 
     try:
         _correspond(ck, rng)
@@ -139,6 +145,7 @@ def _run(ck: core.Check, pool):
         ck.broken("oracle", "C15 program oracle workers failed", f"{type(e).__name__}: {str(e)[:200]}")
         results = [{"failures": [], "infra": "worker pool failed"} for _ in tasks]
     pstats = {"fault_runs": 0, "effective_faults": 0, "off_checks": 0, "infra": 0, "by_kind": {}}
+    shrunk: dict = {}
     for task, r in zip(tasks, results):
         ck.count(("prog", json.dumps(task, sort_keys=True)))
         if r.get("infra"):
@@ -151,7 +158,9 @@ def _run(ck: core.Check, pool):
         else:
             pstats["off_checks"] += 1
         for key, what in r["failures"]:
-            ck.failure(key, what, _shrink(task, key))
+            if key not in shrunk and len(shrunk) < 6:  # shrink once per distinct failure, a handful at most
+                shrunk[key] = _shrink(task, key)
+            ck.failure(key, what, shrunk.get(key, task))
     if pstats["infra"] > len(tasks) // 10:
         ck.broken("oracle", "C15 program oracle starved", f"{pstats['infra']} of {len(tasks)} program cases could not be judged")
     ck.cov.update({"program_cases": pstats})
